@@ -123,6 +123,19 @@ def main():
         obs('big.context', lambda: C.Context(*d1.union(d2)).crc32())
     # definition edit histories with several new names per call
     nh = 40 if tier == 'quick' else 400
+
+    def kind(items, k):
+        """The same ORDERED names as list / tuple / dict keys view / dict / one-shot generator (never a set)."""
+        k %= 5
+        if k == 1:
+            return tuple(items)
+        if k == 2:
+            return dict.fromkeys(items).keys()
+        if k == 3:
+            return dict.fromkeys(items)
+        if k == 4:
+            return (x for x in items)
+        return items
     pool_o, pool_p = names('o', 14) + [''], names('p', 14) + ['']
     for w in range(nh):
         if w % nshards != shard:
@@ -135,13 +148,13 @@ def main():
             x = rng.randrange(12)
             try:
                 if x == 0:
-                    d.add_object(rng.choice(pool_o), rng.sample(pool_p, rng.randint(0, 5)))
+                    d.add_object(rng.choice(pool_o), kind(rng.sample(pool_p, rng.randint(0, 5)), step))
                 elif x == 1:
-                    d.add_property(rng.choice(pool_p), rng.sample(pool_o, rng.randint(0, 5)))
+                    d.add_property(rng.choice(pool_p), kind(rng.sample(pool_o, rng.randint(0, 5)), step))
                 elif x == 2:
-                    d.set_object(rng.choice(pool_o), rng.sample(pool_p, rng.randint(0, 6)))
+                    d.set_object(rng.choice(pool_o), kind(rng.sample(pool_p, rng.randint(0, 6)), step))
                 elif x == 3:
-                    d.set_property(rng.choice(pool_p), rng.sample(pool_o, rng.randint(0, 6)))
+                    d.set_property(rng.choice(pool_p), kind(rng.sample(pool_o, rng.randint(0, 6)), step))
                 elif x == 4:
                     d[rng.choice(pool_o), rng.choice(pool_p)] = rng.random() < 0.7
                 elif x == 5 and d.objects:
